@@ -19,13 +19,18 @@ Open Scope N_scope.
     (delta temporality, observable instruments) or since the start (cumulative). *)
 Definition window := list (aset * Z).
 
-Fixpoint windows_from (rst : bool) (cur : window) (h : list aev) : list window :=
+Fixpoint windows_from (rst : bool) (ign : Z -> bool) (cur : window) (h : list aev) : list window :=
   match h with
   | [] => []
-  | AMeasure a v :: r => windows_from rst (cur ++ [(a, v)]) r
-  | ACollect :: r => cur :: windows_from rst (if rst then [] else cur) r
+  | AMeasure a v :: r => if ign v then windows_from rst ign cur r else windows_from rst ign (cur ++ [(a, v)]) r
+  | ACollect :: r => cur :: windows_from rst ign (if rst then [] else cur) r
   end.
-Definition windows (c : scfg) (h : list aev) : list window := windows_from (resets c) [] h.
+(** Guard for non-finite float measurements (NaN, +Inf, -Inf; see Defs.is_nf): the exponential
+    histogram discards them by design, so they are not part of its windows; every other aggregator
+    must count them (histogram counts are conserved exactly), while a sum that a non-finite value
+    entered is only required to be non-finite again (its value is excluded from comparison). *)
+Definition windows (c : scfg) (h : list aev) : list window :=
+  windows_from (resets c) (ignores (s_kind c)) [] h.
 
 (** The filtered attribute set: the allow-listed keys, in order. *)
 Definition restrict (f : option (list bytes)) (a : aset) : aset :=
@@ -108,10 +113,10 @@ Fixpoint perm_eqb {A} (eqb : A -> A -> bool) (a b : list A) : bool :=
   | x :: a' => match remove_first eqb x b with Some b' => perm_eqb eqb a' b' | None => false end
   end.
 
-(** [relax]: a required value of 0 is not compared (used only to classify known finding
-    F-C12-2, a stale Sum on histogram points whose sum is not collected). *)
+(** [relax]: a required value that is non-finite (a non-finite measurement entered the sum, or is the
+    last value) only requires the reported value to be non-finite; counts are always compared exactly. *)
 Definition point_eqb_gen (relax : bool) (p q : point) : bool :=
-  ((fst p =? fst q)%Z || (relax && (fst p =? 0)%Z)) && (snd p =? snd q).
+  ((fst p =? fst q)%Z || (relax && is_nf (fst p) && is_nf (fst q))) && (snd p =? snd q).
 Definition kp_eqb_gen (relax : bool) (a b : aset * point) : bool :=
   aset_eqb (fst a) (fst b) && point_eqb_gen relax (snd a) (snd b).
 Definition points_eqb_gen (relax : bool) : points -> points -> bool := perm_eqb (kp_eqb_gen relax).
@@ -244,7 +249,7 @@ Definition is_hist_tag (m : N) : bool := let t := m mod 10 in (t =? 2) || (t =? 
 (** [a] is the required metric, [b] the reported one. *)
 Definition metric_eqb_gen (relax : bool) (a b : metric) : bool :=
   bytes_eqb (fst (fst a)) (fst (fst b)) && (snd (fst a) =? snd (fst b)) &&
-  points_eqb_gen (relax && is_hist_tag (snd (fst a))) (snd a) (snd b).
+  points_eqb_gen relax (snd a) (snd b).
 Definition metric_eqb := metric_eqb_gen false.
 
 Fixpoint collects_ok (relax : bool) (runs : list srun) (n : nat) (obs : list (list metric)) : bool :=
